@@ -772,6 +772,11 @@ func (p *CaseForm) typecheckForm(gammaNameTypesCtx NamesTypesCtx, providerShadow
 			newGammaNameTypesCtx := copyContext(gammaNameTypesCtx)
 
 			// curBranchForm.payload_c cannot exist in gammaNameTypesCtx
+			if nameTypeExists(newGammaNameTypesCtx, curBranchForm.payload_c.Ident) {
+				// Name is not fresh (it would silently shadow a name that still has to be used)
+				return TypeErrorf("variable name '%s' is already defined. Use unique names in %s", curBranchForm.payload_c.String(), curBranchForm.StringShort())
+			}
+
 			newGammaNameTypesCtx[curBranchForm.payload_c.Ident] = NamesType{Type: expectedBranchType.SessionType}
 
 			// Set type
